@@ -280,6 +280,97 @@ func findFunc(files []*ast.File, name string) *ast.FuncDecl {
 	return nil
 }
 
+// assertions lists every type assertion x.(T) (type switches are total by construction and not listed) of the
+// functions declared in the given file: function, operand and asserted type as source text, and whether the
+// assertion is of the comma-ok form (`v, ok := x.(T)`, `_, ok = x.(T)`, `if _, ok := ...`), i.e. cannot panic.
+func assertions(fset *token.FileSet, files []*ast.File, base string) [][4]string {
+	var out [][4]string
+	n := &norm{fset: fset}
+	for _, f := range files {
+		if filepath.Base(fset.Position(f.Pos()).Filename) != base {
+			continue
+		}
+		for _, d := range f.Decls {
+			fd, ok := d.(*ast.FuncDecl)
+			if !ok || fd.Body == nil {
+				continue
+			}
+			checked := map[*ast.TypeAssertExpr]bool{}
+			unparen := func(e ast.Expr) ast.Expr {
+				for {
+					p, ok := e.(*ast.ParenExpr)
+					if !ok {
+						return e
+					}
+					e = p.X
+				}
+			}
+			ast.Inspect(fd.Body, func(x ast.Node) bool {
+				switch a := x.(type) {
+				case *ast.AssignStmt:
+					if len(a.Lhs) == 2 && len(a.Rhs) == 1 {
+						if ta, ok := unparen(a.Rhs[0]).(*ast.TypeAssertExpr); ok {
+							checked[ta] = true
+						}
+					}
+				case *ast.ValueSpec:
+					if len(a.Names) == 2 && len(a.Values) == 1 {
+						if ta, ok := unparen(a.Values[0]).(*ast.TypeAssertExpr); ok {
+							checked[ta] = true
+						}
+					}
+				}
+
+				return true
+			})
+			ast.Inspect(fd.Body, func(x ast.Node) bool {
+				if ta, ok := x.(*ast.TypeAssertExpr); ok && ta.Type != nil {
+					c := "unchecked"
+					if checked[ta] {
+						c = "ok"
+					}
+					out = append(out, [4]string{fd.Name.Name, n.src(ta.X), n.src(ta.Type), c})
+				}
+
+				return true
+			})
+		}
+	}
+
+	return out
+}
+
+// reflectValueOf lists the calls reflect.ValueOf(x) of the functions declared in the given file (function, operand):
+// a decoded JSON value that is wrapped and then Set into the target panics when its dynamic type is not the target's.
+func reflectValueOf(fset *token.FileSet, files []*ast.File, base string) [][2]string {
+	var out [][2]string
+	n := &norm{fset: fset}
+	for _, f := range files {
+		if filepath.Base(fset.Position(f.Pos()).Filename) != base {
+			continue
+		}
+		for _, d := range f.Decls {
+			fd, ok := d.(*ast.FuncDecl)
+			if !ok || fd.Body == nil {
+				continue
+			}
+			ast.Inspect(fd.Body, func(x ast.Node) bool {
+				if c, ok := x.(*ast.CallExpr); ok && len(c.Args) == 1 {
+					if se, ok := c.Fun.(*ast.SelectorExpr); ok && se.Sel.Name == "ValueOf" {
+						if id, ok := se.X.(*ast.Ident); ok && id.Name == "reflect" {
+							out = append(out, [2]string{fd.Name.Name, n.src(c.Args[0])})
+						}
+					}
+				}
+
+				return true
+			})
+		}
+	}
+
+	return out
+}
+
 func leanStr(s string) string {
 	return "\"" + strings.ReplaceAll(strings.ReplaceAll(s, "\\", "\\\\"), "\"", "\\\"") + "\""
 }
@@ -293,6 +384,7 @@ func main() {
 	seri := parseDir(fset, filepath.Join(root, "serializer"))
 	strm := parseDir(fset, filepath.Join(root, "serializer/stream"))
 	tu := parseDir(fset, filepath.Join(root, "serializer/typeutils"))
+	srx := parseDir(fset, filepath.Join(root, "serializer/serix"))
 	var b strings.Builder
 	fmt.Fprintf(&b, "-- GENERATED by harness/c02/facts from the Go working tree (checks/c02.py, checks/c01c.py); do not edit.\nnamespace %s\n\n", ns)
 	cs := consts(fset, seri, []string{"OneByte", "UInt16ByteSize", "UInt32ByteSize", "UInt64ByteSize", "UInt256ByteSize",
@@ -340,6 +432,7 @@ func main() {
 		{seri, "Deserializer.ReadBytes"}, {seri, "Deserializer.ReadPayloadLength"}, {seri, "Deserializer.GetObjectType"},
 		{seri, "Deserializer.ReadSequenceOfObjects"}, {seri, "Deserializer.RemainingBytes"}, {seri, "Deserializer.Done"},
 		{seri, "Deserializer.Skip"}, {seri, "Deserializer.ReadTime"}, {seri, "Deserializer.ReadPayload"},
+		{srx, "DecodeHex"}, {srx, "DecodeUint256"}, {srx, "DecodeUint64"},
 	}
 	for _, bd := range bodies {
 		fd := findFunc(bd.files, bd.name)
@@ -355,6 +448,29 @@ func main() {
 		}
 		b.WriteString("]\n\n")
 	}
+	// every type assertion of map_decode.go (the decoded JSON document arrives as `any`)
+	b.WriteString("/-- (function, operand, asserted type, comma-ok form) of every type assertion of serializer/serix/map_decode.go, in source order -/\n")
+	b.WriteString("def assertions_map_decode : List (String × String × String × Bool) := [\n")
+	as := assertions(fset, srx, "map_decode.go")
+	for i, a := range as {
+		sep := ","
+		if i == len(as)-1 {
+			sep = ""
+		}
+		fmt.Fprintf(&b, "  (%s, %s, %s, %v)%s\n", leanStr(a[0]), leanStr(a[1]), leanStr(a[2]), a[3] == "ok", sep)
+	}
+	b.WriteString("]\n\n")
+	b.WriteString("/-- (function, operand) of every reflect.ValueOf call of serializer/serix/map_decode.go, in source order -/\n")
+	b.WriteString("def reflectValueOf_map_decode : List (String × String) := [\n")
+	rv := reflectValueOf(fset, srx, "map_decode.go")
+	for i, a := range rv {
+		sep := ","
+		if i == len(rv)-1 {
+			sep = ""
+		}
+		fmt.Fprintf(&b, "  (%s, %s)%s\n", leanStr(a[0]), leanStr(a[1]), sep)
+	}
+	b.WriteString("]\n\n")
 	fmt.Fprintf(&b, "end %s\n", ns)
 	if err := os.WriteFile(out, []byte(b.String()), 0o644); err != nil {
 		fail(err.Error())
